@@ -277,6 +277,10 @@ def correspondence(ctx):
                                                        exception_classes=len(_v._exception_classes_cache))
     except Exception:  # noqa
         pass
+    c.extra["measured"] = hw.measured()
+    for k_, v_ in hw.measured().items():
+        if not v_:
+            c.count("known-weakness(measured, oracle clause not armed):" + k_)
     c.extra["sessions"] = len(lines)
     c.extra["messages"] = nmsg
     c.extra["unpoliced_by_design"] = [
@@ -573,6 +577,14 @@ def oracle_session(seed, index, n_bursts=None):
                 problems.append("pickle was used: %r" % (rt.PICKLE_LOG[:3],))
             if rt.IMPORT_LOG or hw.IMPORTED:
                 problems.append("an import was attempted: %r %r" % (rt.IMPORT_LOG[:3], hw.IMPORTED[:3]))
+            m_ = hw.measured()
+            if m_["class_factory_reads_no_module_object"] and hw.HITS.module_object_reads:
+                problems.append("attributes %r were read on a module-level object of the serving process that was never sent "
+                                "(named by the peer as a class)" % (hw.HITS.module_object_reads[:3],))
+            if m_["cmp_respects_object_hook"]:
+                hooked = [h for h in hw.HITS.special if h[0] == "h4"]
+                if hooked:
+                    problems.append("special methods %r of an object whose own _rpyc_getattr refuses them were invoked" % (hooked[:3],))
             if hw.HITS.module_hooks:
                 problems.append("a module-level __getattr__ hook ran with a peer-chosen name: %r" % (hw.HITS.module_hooks[:3],))
             new = [m for m in set(sys.modules) - mods_before
